@@ -2,7 +2,7 @@ SPECIFICATION Spec
 CONSTANTS
   Depth = 3
   EmitB = TRUE
-  NStart = 4
+  NStart = 2
   OpFrom = 1
   OpTo = 68
 INVARIANTS ObjectsOk RelativeOk StaysValid EmitBehaviour
